@@ -134,6 +134,7 @@ def padded_trials(n, pad):
 
 
 _CONV = {}
+_SCHED = {}
 
 
 def converter(idx):
@@ -145,18 +146,25 @@ def converter(idx):
   from vizier.pyvizier.converters import padding
   lay = LAYOUTS[idx]
   T = padding.PaddingType
-  sched = {
-      'none': padding.PaddingSchedule(),
-      'pow2': padding.PaddingSchedule(num_trials=T.POWERS_OF_2,
-                                      num_features=T.POWERS_OF_2),
-      'pow2_feat': padding.PaddingSchedule(num_features=T.POWERS_OF_2),
-      'mult10': padding.PaddingSchedule(num_trials=T.MULTIPLES_OF_10,
-                                        num_features=T.MULTIPLES_OF_10),
-  }[lay['pad']]
+  # One schedule object per padding kind for the whole process, like a service
+  # that configures its designers once ('none': the default argument of
+  # from_problem).  PaddingSchedule() != PaddingSchedule() (its NaN default), so
+  # per-converter objects would hide state that is keyed on the schedule.
+  if not _SCHED:
+    _SCHED.update({
+        'pow2': padding.PaddingSchedule(num_trials=T.POWERS_OF_2,
+                                        num_features=T.POWERS_OF_2),
+        'pow2_feat': padding.PaddingSchedule(num_features=T.POWERS_OF_2),
+        'mult10': padding.PaddingSchedule(num_trials=T.MULTIPLES_OF_10,
+                                          num_features=T.MULTIPLES_OF_10),
+    })
   spec = {'params': lay['params']}
   problem = spaces.problem(spec, metrics=(('obj', 'MAXIMIZE'),))
-  conv = converters.TrialToModelInputConverter.from_problem(
-      problem, padding_schedule=sched)
+  if lay['pad'] == 'none':
+    conv = converters.TrialToModelInputConverter.from_problem(problem)
+  else:
+    conv = converters.TrialToModelInputConverter.from_problem(
+        problem, padding_schedule=_SCHED[lay['pad']])
   _CONV[idx] = (conv, spec)
   return _CONV[idx]
 
